@@ -121,8 +121,8 @@ MUST_FIRE = [
      "np.full(len(X_eval), self.missing_label_)", "np.full(len(X_eval), np.nan)"),
     # ---- C10
     ("variable-update-sign-swapped", ["C10"], ["R10.3"], BZ,
-     "                if s:\n                    self.theta_ *= 1 - self.s\n                else:\n                    self.theta_ *= 1 + self.s\n        super().update(candidates, queried_indices)\n        return self\n\n    def _validate_data(self, utilities):\n        \"\"\"Validate input data.\n\n        Parameters\n        ----------\n        utilities : ndarray of shape (n_samples,)\n            The `utilities` provided by the stream-based active learning\n            strategy.\n\n        Returns\n        -------\n        utilities : ndarray of shape (n_samples,)\n            Checked `utilities`.\n        \"\"\"\n        utilities = super()._validate_data(utilities)\n        # Check w\n        check_scalar(self.w, \"w\", int, min_val=0, min_inclusive=False)\n        # Check theta\n        self._validate_theta()\n        check_scalar(self.w",
-     "                if s:\n                    self.theta_ *= 1 + self.s\n                else:\n                    self.theta_ *= 1 - self.s\n        super().update(candidates, queried_indices)\n        return self\n\n    def _validate_data(self, utilities):\n        \"\"\"Validate input data.\n\n        Parameters\n        ----------\n        utilities : ndarray of shape (n_samples,)\n            The `utilities` provided by the stream-based active learning\n            strategy.\n\n        Returns\n        -------\n        utilities : ndarray of shape (n_samples,)\n            Checked `utilities`.\n        \"\"\"\n        utilities = super()._validate_data(utilities)\n        # Check w\n        check_scalar(self.w, \"w\", int, min_val=0, min_inclusive=False)\n        # Check theta\n        self._validate_theta()\n        check_scalar(self.w"),
+     "                if s:\n                    self.theta_ *= 1 - self.s\n                else:\n                    self.theta_ *= 1 + self.s\n",
+     "                if s:\n                    self.theta_ *= 1 + self.s\n                else:\n                    self.theta_ *= 1 - self.s\n", 2),
     ("random-bm-rng-mirror-deleted", ["C10"], ["R10.5"], BZ,
      "        self._validate_data(np.array([]))\n        self.random_state_.random_sample(len(candidates))\n        super().update(candidates, queried_indices)",
      "        self._validate_data(np.array([]))\n        super().update(candidates, queried_indices)"),
